@@ -2,7 +2,7 @@
 (***************************************************************************)
 (* Trace specification for gm-sm3 (property C01).  Every event recorded     *)
 (* from the real library must be a step of the SM3 machine:                 *)
-(*   sm3.hash   digest = Finish(AbsorbTo(st, m), m)                          *)
+(*   sm3.hash   digest = Finish(AbsorbTo(tst, m), m)                          *)
 (*   sm3.block  (hook) one observed compression V_i -> V_{i+1}               *)
 (*   sm3.final  (hook) the padded tail and digest of a giant message         *)
 (* A session is a run of events with the same `sess`; within a session the  *)
@@ -13,37 +13,37 @@
 EXTENDS SM3, Gen, Json, IOUtils
 Events == ndJsonDeserialize(IOEnv.TRACE)
 N == Len(Events)
-VARIABLES pos, st, last
-vars == <<pos, st, last>>
+VARIABLES tpos, tst, tlast
+vars == <<tpos, tst, tlast>>
 IsStart(i) == i = 1 \/ Events[i].sess # Events[i-1].sess
 St0 == [k |-> "none", seed |-> 0, n |-> 0, v |-> IV]
 
 LenClass(len) == IF len = 0 THEN "empty" ELSE IF len % 64 = 55 THEN "r55" ELSE IF len % 64 = 56 THEN "r56"
                  ELSE IF len % 64 = 63 THEN "r63" ELSE IF len % 64 = 0 THEN "r0" ELSE IF len < 64 THEN "short" ELSE "multi"
 \* base machine state for message m of event e
-Base(e, nfull) == IF e.gen.k # "raw" /\ st.k = e.gen.k /\ st.seed = e.gen.seed /\ st.n <= nfull THEN [n |-> st.n, v |-> st.v] ELSE SM3Init
+Base(e, nfull) == IF e.gen.k # "raw" /\ tst.k = e.gen.k /\ tst.seed = e.gen.seed /\ tst.n <= nfull THEN [n |-> tst.n, v |-> tst.v] ELSE SM3Init
 Verdict(e, ok, class, kind) == <<e.id, IF ok THEN "ok" ELSE "dev", "C01", class, IF ok THEN "-" ELSE kind>>
 HashKind(e) == IF e.outcome # "ok" THEN e.outcome ELSE "wrong-digest"
 \* --- sm3.hash ---
-Hash3(e, m, st1, d) == /\ st' = [k |-> e.gen.k, seed |-> e.gen.seed, n |-> st1.n, v |-> st1.v]
-                       /\ last' = Verdict(e, e.outcome = "ok" /\ e.digest = d, LenClass(Len(m)), HashKind(e))
+Hash3(e, m, st1, d) == /\ tst' = [k |-> e.gen.k, seed |-> e.gen.seed, n |-> st1.n, v |-> st1.v]
+                       /\ tlast' = Verdict(e, e.outcome = "ok" /\ e.digest = d, LenClass(Len(m)), HashKind(e))
 Hash2(e, m, st1) == Hash3(e, m, st1, Finish(st1, m))
 Hash1(e, m) == Hash2(e, m, AbsorbTo(Base(e, Len(m) \div 64), m, Len(m) \div 64))
 \* --- sm3.block (hook): block index e.idx (0-based) of the generated message; chaining values before/after as 8 words ---
 BlockBytes(e) == TLCEval([i \in 1..64 |-> GenByte(e.gen.k, e.gen.seed, e.idx * 64 + (i - 1))])
 W8(bytes) == << WOfBytes(bytes,0), WOfBytes(bytes,4), WOfBytes(bytes,8), WOfBytes(bytes,12), WOfBytes(bytes,16), WOfBytes(bytes,20), WOfBytes(bytes,24), WOfBytes(bytes,28) >>
-Block1(e) == /\ st' = st
-             /\ last' = Verdict(e, CF(W8(e.vin), BlockBytes(e), 0) = W8(e.vout), "hook-block", "wrong-compression")
+Block1(e) == /\ tst' = tst
+             /\ tlast' = Verdict(e, CF(W8(e.vin), BlockBytes(e), 0) = W8(e.vout), "hook-block", "wrong-compression")
 \* --- sm3.final (hook): giant message of e.lhi*2^24 + e.llo bytes; vin = chaining value after all full blocks ---
 TailBytes(e) == TLCEval([i \in 1..(e.llo % 64) |-> GenByte(e.gen.k, e.gen.seed, (e.nfull * 64) + (i - 1))])
-Final2(e, pt) == /\ st' = st
-                 /\ last' = Verdict(e, DigestBytes(IterG(W8(e.vin), pt, 0, Len(pt) \div 64)) = e.digest, "giant-final", "wrong-digest")
+Final2(e, pt) == /\ tst' = tst
+                 /\ tlast' = Verdict(e, DigestBytes(IterG(W8(e.vin), pt, 0, Len(pt) \div 64)) = e.digest, "giant-final", "wrong-digest")
 Final1(e) == Final2(e, TLCEval(PadTail(TailBytes(e), e.lhi, e.llo)))
 Step(e) == IF e.op = "sm3.hash" THEN Hash1(e, MsgOf(e))
            ELSE IF e.op = "sm3.block" THEN Block1(e)
            ELSE IF e.op = "sm3.final" THEN Final1(e)
-           ELSE st' = st /\ last' = <<e.id, "dev", "C01", "unknown-op", e.op>>
-TInit == pos \in {i \in 1..N : IsStart(i)} /\ st = St0 /\ last = <<>>
-TNext == pos <= N /\ (last = <<>> \/ ~IsStart(pos)) /\ pos' = pos + 1 /\ Step(Events[pos])
-Report == last # <<>> => PrintT(<<"V", ToJson(last)>>)
+           ELSE tst' = tst /\ tlast' = <<e.id, "dev", "C01", "unknown-op", e.op>>
+TInit == tpos \in {i \in 1..N : IsStart(i)} /\ tst = St0 /\ tlast = <<>>
+TNext == tpos <= N /\ (tlast = <<>> \/ ~IsStart(tpos)) /\ tpos' = tpos + 1 /\ Step(Events[tpos])
+Report == tlast # <<>> => PrintT(<<"V", ToJson(tlast)>>)
 =============================================================================
